@@ -4,6 +4,14 @@ From IRV Require Import Base.Exn C13.Model C13.Proofs1 C13.Proofs2 C13.Proofs3 C
 Import ListNotations.
 Local Open Scope positive_scope.
 
+Lemma check_passed_ok st st' u :
+  check_passed st = (st', Ok u) -> st' = st /\ forall v, In v (passed st) -> assoc v (vmap st) = None.
+Proof.
+  unfold check_passed. destruct (forallb (unmapped (vmap st)) (passed st)) eqn:E; intros H; [|discriminate].
+  injection H as <- _. split; [reflexivity|]. intros v Hv. rewrite forallb_forall in E. specialize (E v Hv).
+  unfold unmapped in E. destruct (assoc v (vmap st)); [discriminate|reflexivity].
+Qed.
+
 Section Good4.
   Variables allow deep : bool.
   Variable h0 : heap.
@@ -46,6 +54,7 @@ Section Good4.
     rewrite (old_cell _ _ _ _ _ G Hg) in E.
     assert (HL : forall y, In y (links (CGraph x)) -> y < n0) by (intros y; apply (proj2 (Hcl0 _ _ E))).
     bind_as H s1 ins E1. bind_as H s2 inits E2. bind_as H s3 nodes E3. bind_as H s4 outs E4.
+    bind_as H s4' u0 E4c. apply check_passed_ok in E4c. destruct E4c as [-> _].
     bind_as H s5 keys E5. bind_as H s6 ops E6. bind_as H s7 mp E7. bind_as H s8 me E8.
     destruct (mapM_good allow deep h0 (clone_or_get_value deep) (fun s o c => VR s o c) (fun o => o < n0)
                 (mono_clone_or_get_value deep)
